@@ -69,8 +69,15 @@ def node_tla(n):
         tla_seq(n[1]), tla_fun(n[2]), n[3])
 
 
+KEYLEN = 8      # the real key length: stale reads at a wrong depth then look at the same key bytes as the code
+
+
 def key3(k):
-    return ((k >> 16) & 255, (k >> 8) & 255, k & 255)
+    """big-endian bytes of a uint64 key, as the encoder produces them"""
+    return tuple((k >> (8 * (KEYLEN - 1 - i))) & 255 for i in range(KEYLEN))
+
+
+ZERO = (0,) * KEYLEN
 
 
 def parse_scan(tok):
@@ -82,9 +89,9 @@ def parse_scan(tok):
         halt = int(m.group(1))
         tok = tok[:m.start()]
     if tok[0] == "s":
-        return "all", (0, 0, 0), (0, 0, 0), tok[1] == "f", halt
+        return "all", ZERO, ZERO, tok[1] == "f", halt
     if tok[0] == "f":
-        return "from", key3(int(tok[2:])), (0, 0, 0), tok[1] == "f", halt
+        return "from", key3(int(tok[2:])), ZERO, tok[1] == "f", halt
     a, b = tok[1:].split("-")
     return "range", key3(int(a)), key3(int(b)), True, halt
 
@@ -99,7 +106,8 @@ def parse_op(tok, t, i):
     return '[op |-> "%s", k |-> %s, v |-> %d]' % (kind, tla_seq(k), 100 * (t + 1) + i + 1)
 
 
-def generate(name, init, progs, caps=REAL_CAPS, qeach=True, flags=None, max_extra=10, outdir=None, max_version=24):
+def generate(name, init, progs, caps=REAL_CAPS, qeach=True, flags=None, max_extra=10, outdir=None, max_version=24,
+             keep_seen=False):
     """init: list of int keys (< 2^24); progs: list of lists of op tokens (g<k> i<k> r<k>)"""
     outdir = outdir or os.path.join(vlib.SPEC, "gen")
     os.makedirs(outdir, exist_ok=True)
@@ -121,14 +129,16 @@ def generate(name, init, progs, caps=REAL_CAPS, qeach=True, flags=None, max_extr
             "<<" + ", ".join(parse_op(tok, t, i) for i, tok in enumerate(p)) + ">>" for t, p in enumerate(progs)))
         f.write("MCCaps == %s\n====\n" % tla_seq(caps))
     with open(os.path.join(outdir, mod + ".cfg"), "w") as f:
-        f.write("SPECIFICATION " + ("SpecI" if scans else "Spec") + "\nCONSTANTS\n  Threads = {%s}\n  KeyLen = 3\n  Caps <- MCCaps\n  MaxNodes = %d\n  MaxVersion = %d\n"
-                % (",".join(str(i + 1) for i in range(len(progs))), nn + max_extra, max_version))
+        f.write("SPECIFICATION " + ("SpecI" if scans else "Spec") + "\nCONSTANTS\n  Threads = {%s}\n  KeyLen = %d\n  Caps <- MCCaps\n  MaxNodes = %d\n  MaxVersion = %d\n"
+                % (",".join(str(i + 1) for i in range(len(progs))), KEYLEN, nn + max_extra, max_version))
         f.write("  InitNodes <- MCInitNodes\n  InitRoot = %d\n  InitNext = %d\n  InitAbs <- MCInitAbs\n  Programs <- MCPrograms\n" % (root, nn + 1))
         f.write("  QEach = %s\n" % ("TRUE" if qeach else "FALSE"))
         for k, v in fl.items():
             if k == "IterChecksAfterNextRead" and not scans:
                 continue
             f.write("  %s = %s\n" % (k, "TRUE" if v else "FALSE"))
+        if scans:
+            f.write("  KeepSeen = %s\n" % ("TRUE" if keep_seen else "FALSE"))
         f.write("INVARIANTS NoBadOutcome OneWriterPerNode NoLockHeldAtReturn NoOrphanLock SpinnersHoldNothing FinalTreeIsMap NoReachableRetired NothingLeaked ShapeOK\n")
         f.write("CONSTRAINT VersionBound\nCHECK_DEADLOCK FALSE\n")
     return mod, outdir
